@@ -20,17 +20,19 @@ RULE = ("part 'history': random histories over log / add_destinations(1-3 new de
         "(length <= 40, a share with 1001-1100 messages logged before the first add), each in a fresh process, compared with a 30-line "
         "sequential reference model that predicts every destination's exact tape (buffered messages once, in order, ahead of later "
         "ones, only to the destinations of the first add; later destinations only later messages; nothing after removal; global "
-        "fields set before delivery present). part 'handover': 1-2 logger threads emit uniquely numbered messages (some inside an "
+        "fields set before delivery present); half of the never-removed destinations are distinct objects that compare equal. part 'handover': 1-2 logger threads emit uniquely numbered messages (some inside an "
         "action) while another thread performs the first add_destinations, each schedule in a fresh process under the line-granular "
         "scheduler with LINE events on eliot/_output.py: for every priority order ALL one-preemption schedules plus sampled "
         "2-3-preemption ones. Oracle: every message whose logging call returned is on the destination's tape exactly once, per-thread "
-        "order preserved, messages buffered before the threads started come first. part 'registry': after the hand-over, 2-3 threads "
+        "order preserved, messages buffered before the threads started come first; in a quarter of the thread sets TWO threads make the first add_destinations "
+        "call concurrently (exactly one receives the buffered messages, both are registered afterwards, neither call raises). part 'registry': after the hand-over, 2-3 threads "
         "add and remove destinations (and one logs) concurrently under the same scheduler, all one-preemption schedules: every "
         "destination whose add returned receives a message logged afterwards, every removed one does not, the destination registered "
         "throughout receives everything once. non-trivial = history with >=2 adds and a "
         "remove, or >1000 buffered; schedule whose preemption fired inside Destinations.add/send; distinct by history / interleaving hash")
 ASSUMPTIONS = ["switch points are statement boundaries and blocking primitives (CPython granularity)",
-               "each destination object is registered at most once at a time"]
+               "each destination object is registered at most once at a time",
+               "destination objects that compare equal to one another are never passed to remove_destination (removal is by equality)"]
 EXHAUSTIVE_NOTE = "hand-over: all one-preemption schedules for every priority order of each generated thread set"
 CASE_TIMEOUT = 1200
 
@@ -84,8 +86,32 @@ def run_history(ops):
     tapes = {}
     dests = {}
 
+    never_removed = set(i for op in ops if op[0] == "add" for i in op[1]) - set(op[1] for op in ops if op[0] == "remove")
+
+    class EqDest(object):
+        """Distinct destination objects that compare equal to each other (value objects with the same configuration)."""
+
+        def __init__(self, i):
+            self.i = i
+
+        def __eq__(self, other):
+            return isinstance(other, EqDest)
+
+        def __ne__(self, other):
+            return not isinstance(other, EqDest)
+
+        def __hash__(self):
+            return 7
+
+        def __call__(self, m):
+            tapes[self.i].append(dict(m))
+
     def make(i):
         tapes[i] = []
+        if i in never_removed and i % 2 == 0:
+            # (only destinations that are never removed: removal finds a destination by equality)
+            dests[i] = EqDest(i)
+            return dests[i]
 
         def d(m, i=i):
             tapes[i].append(dict(m))
@@ -215,7 +241,7 @@ def part_history(spec, res):
 # --------------------------------------------------------------------------- concurrent hand-over
 
 
-def handover_once(plan_, nlog, nmsg, nprebuf, in_action):
+def handover_once(plan_, nlog, nmsg, nprebuf, in_action, nadders=1):
     """Executed in a fresh process: returns stats + what was logged + the destination's tape."""
     sched.instrument([_output])
     tape = []
@@ -239,19 +265,53 @@ def handover_once(plan_, nlog, nmsg, nprebuf, in_action):
                     returned[t].append(s)
         return run
 
+    tape2 = []
+
+    def dest2(m):
+        tape2.append((m.get("t"), m.get("seq"), m.get("pre")))
+
     def adder():
         add_destinations(dest)
 
+    def adder2():
+        add_destinations(dest2)
+
     workers = {"L%d" % t: logger(t) for t in range(nlog)}
     workers["A"] = adder
+    if nadders == 2:
+        workers["B"] = adder2
     st, errs = sched.run_schedule(plan_, workers, timeout=60.0)
+    if nadders == 2:
+        # two threads both made "the first" add_destinations call: exactly one of them is the first, both destinations are registered
+        try:
+            log_message(message_type="h", t="final", seq=0)
+        except BaseException as e:
+            errs["main"] = e
+        t1, t2 = list(tape), list(tape2)
+        fin1, fin2 = [x for x in t1 if x[0] == "final"], [x for x in t2 if x[0] == "final"]
+        tape[:] = [x for x in t1 if x[0] != "final"]
+        other = [x for x in t2 if x[0] != "final"]
+        pre1, pre2 = [x for x in tape if x[2] is not None], [x for x in other if x[2] is not None]
+        extra = []
+        if len(fin1) != 1 or len(fin2) != 1:
+            extra.append("two concurrent first add_destinations calls: a message logged after both returned reached the destinations %d and %d times" % (len(fin1), len(fin2)))
+        if nprebuf and pre1 and pre2:
+            extra.append("two concurrent first add_destinations calls: buffered messages were delivered to both destinations")
+        # the tape judged below is the one of the destination that became the first (it holds the buffered messages, or more messages)
+        if (pre2 and not pre1) or (not pre1 and not pre2 and len(other) > len(tape)):
+            tape[:], other = other, list(tape)
+        for x in other:
+            if x not in tape:
+                extra.append("the destination registered second received %r, which the first one did not" % (x,))
+        for x_ in extra[:2]:
+            errs["second-adder: " + x_] = None
     return {"stats": {"events": st["events"], "fired": st["fired"], "aborted": st["aborted"], "deadlock": st["deadlock"], "trace": st["trace"], "steps": st["steps"]},
             "errors": {k: repr(v) for k, v in errs.items()}, "returned": {str(k): v for k, v in returned.items()}, "tape": tape}
 
 
 def judge_handover(data, nlog, nprebuf, problems):
     for k, e in data["errors"].items():
-        problems.append("thread %s raised %s" % (k, e))
+        problems.append(k if k.startswith("second-adder") else "thread %s raised %s" % (k, e))
     tape = [tuple(x) for x in data["tape"]]
     pres = [x[2] for x in tape if x[2] is not None]
     if pres != list(range(nprebuf)):
@@ -276,11 +336,16 @@ def part_handover(spec, res):
     nmsg = rng.choice([1, 2, 3]) if nlog == 1 else rng.choice([1, 2])
     nprebuf = rng.choice([0, 1, 3])
     in_action = rng.random() < 0.3
-    names = ["L%d" % t for t in range(nlog)] + ["A"]
+    nadders = 2 if spec["i"] % 4 == 3 else 1
+    if nadders == 2:
+        nlog, nmsg = 1, rng.choice([1, 2])
+    names = ["L%d" % t for t in range(nlog)] + ["A"] + (["B"] if nadders == 2 else [])
     c = res["counters"]
 
     def execute(plan_, label):
-        kind, data = call_in_fork(lambda: handover_once(plan_, nlog, nmsg, nprebuf, in_action), timeout=120)
+        if nadders == 2:
+            c["schedules_with_two_first_adders"] = c.get("schedules_with_two_first_adders", 0) + 1
+        kind, data = call_in_fork(lambda: handover_once(plan_, nlog, nmsg, nprebuf, in_action, nadders), timeout=120)
         res["evals"] += 1
         c["schedules_run"] = c.get("schedules_run", 0) + 1
         if kind == "timeout" or kind == "died":
